@@ -22,6 +22,7 @@ def main():
            'exhausted': False}
     try:
         sys.path.insert(0, os.path.dirname(os.path.abspath(modfile)))
+        sys.path.insert(0, os.path.dirname(os.path.dirname(os.path.abspath(__file__))))
         spec = importlib.util.spec_from_file_location(
             os.path.splitext(os.path.basename(modfile))[0], modfile)
         mod = importlib.util.module_from_spec(spec)
@@ -31,6 +32,8 @@ def main():
         from crosshair.core_and_libs import (analyze_function, run_checkables,
                                               AnalysisKind, MessageType)
         from crosshair.options import AnalysisOptionSet
+        from vlib import ch_patches
+        ch_patches.apply()
         stats = collections.Counter()
         kw = dict(per_condition_timeout=cond_to,
                   analysis_kind=[AnalysisKind.PEP316], report_all=True,
